@@ -222,6 +222,38 @@ func c13(r *rep.Run) {
 			&c13case{src: "(or (overlap ls (" + strings.Join(ss, " ") + ")) (in s KLL))", consts: map[string]interface{}{"KLL": sl}, vars: sv, binds: [][]interface{}{{"e 3", true, []string{"e 2"}}, {"zz", true, []string{"q"}}}, what: fmt.Sprintf("string list of %d", k)},
 		)
 	}
+	// long string lists whose elements contain blanks next to digits, quotes'
+	// neighbours, brackets and separators, shifted column by column (a first
+	// element of growing length): wherever a printer might break or re-space a
+	// long line, some element has a blank exactly there; every element is
+	// probed afterwards
+	for _, shape := range []string{"%d x", "x %d", "room %d left", " lead%d", "trail%d ", "%d %d", "a  b%d", "(x) %d", "a;b %d", "%d ) (", "9 %d\tz"} {
+		for _, k := range []int{17, 40, 100} {
+			for shift := 0; shift < 12; shift++ {
+				if k == 100 && shift%4 != 0 {
+					continue
+				}
+				var ss, sl []string
+				first := "p" + strings.Repeat("q", shift)
+				ss, sl = append(ss, `"`+first+`"`), append(sl, first)
+				for i := 0; i < k; i++ {
+					el := fmt.Sprintf(shape, i)
+					if strings.Count(shape, "%d") == 2 {
+						el = fmt.Sprintf(shape, i, i+1)
+					}
+					ss, sl = append(ss, `"`+el+`"`), append(sl, el)
+				}
+				var binds [][]interface{}
+				for _, el := range sl {
+					binds = append(binds, []interface{}{el, true, []string{el}})
+				}
+				binds = append(binds, []interface{}{"zz", true, []string{"q"}})
+				cases = append(cases,
+					&c13case{src: "(in s (" + strings.Join(ss, " ") + "))", vars: sv, binds: binds, what: fmt.Sprintf("string list of %d elements shaped %q, shifted %d", k, shape, shift)},
+					&c13case{src: "(or (overlap ls KLL) (in s KLL))", consts: map[string]interface{}{"KLL": sl}, vars: sv, binds: binds[:5], what: fmt.Sprintf("constant string list of %d elements shaped %q, shifted %d", k, shape, shift)})
+			}
+		}
+	}
 	// nested same-kind and/or groups whose operands total 120..131 once
 	// flattened (each written operator stays <= 127): where Compile accepts the
 	// source, the program it dumps must compile again
